@@ -54,8 +54,8 @@ func newHashDriver() *hashDriver {
 		{"'c'", []any{"chr", 99}, ""},
 		{"99", []any{"int", 99}, ""},
 		{"[7]", []any{"arr", []any{[]any{"int", 7}}}, ""},
-		{strconv.Itoa(symA), []any{"int", symA}, ""},       // same bucket as the symbol a
-		{strconv.Itoa(fnvS), projInt(int64(fnvS)), ""},     // same bucket as the string "s"
+		{strconv.Itoa(symA), []any{"int", symA}, ""},   // same bucket as the symbol a
+		{strconv.Itoa(fnvS), projInt(int64(fnvS)), ""}, // same bucket as the string "s"
 		{`"t"`, []any{"str", "t"}, "t"},
 		{"c:", []any{"sym", "c"}, "c"},
 		{"-1", []any{"int", -1}, ""},
